@@ -20,7 +20,7 @@ mod builtins;
 #[path = "../c10/conc.rs"]
 mod conc;
 
-use builtins::{Arg, Case, canon_kind, make_caller};
+use builtins::{Arg, Case, canon_kind, make_caller_at};
 use roto::{FileTree, Runtime};
 use rotov_harness::driver::Driver;
 use rotov_harness::scalar::*;
@@ -352,13 +352,15 @@ fn arith_batch_worker(rep: &mut Report, list: &str, from: usize, n: usize) {
 // -------------------------------------------------------------------- built-ins
 
 fn case_json(c: &Case) -> J {
-    json!({"kind": "builtin", "builtin": c.name, "id": c.id, "class": c.class, "src": c.src, "sig": c.sig,
+    json!({"kind": "builtin", "builtin": c.name, "id": c.id, "class": c.class, "src": c.src, "entry": c.entry, "sig": c.sig,
            "args": c.args.iter().map(|a| a.encode()).collect::<Vec<_>>()})
 }
 
 fn builtin_key(c: &Case, how: &str) -> String {
     let verb = if how == "timeout" { "builtin-timeout" } else { "builtin-abort" };
-    format!("{verb} {} {}", c.name, c.class)
+    // element-type cases: one key per (built-in, element type) — the list shape is in the replay
+    let class = if c.class.starts_with("elem=") { c.class.split(' ').next().unwrap_or(&c.class) } else { &c.class };
+    format!("{verb} {} {}", c.name, class)
 }
 
 /// `Driver::ask_all` writes a chunk of requests before it reads the answers: the
@@ -409,8 +411,10 @@ fn builtin_part(rep: &mut Report, viol: &mut Viol, drv: &mut Driver, seed: u64, 
             pred[*i] = Some(a);
         }
     }
-    let singles: Vec<usize> = (0..cases.len()).filter(|i| pred[*i].as_deref() == Some("panic") || cases[*i].solo).collect();
-    let batched: Vec<usize> = (0..cases.len()).filter(|i| pred[*i].as_deref() != Some("panic") && !cases[*i].solo).collect();
+    // predicted to kill the process: `panic` (abort inside the trampoline) or `segv` (call through a null vtable slot)
+    let kill = |p: &Option<String>| matches!(p.as_deref(), Some("panic") | Some("segv"));
+    let singles: Vec<usize> = (0..cases.len()).filter(|i| kill(&pred[*i]) || cases[*i].solo).collect();
+    let batched: Vec<usize> = (0..cases.len()).filter(|i| !kill(&pred[*i]) && !cases[*i].solo).collect();
     // --- predicted panics and solo cases (self-referential arguments): one worker each, short timeout
     let jobs: Vec<Vec<String>> = singles.iter().map(|i| one_job(&case_json(&cases[*i]))).collect();
     let ended = run_parallel(&jobs, Duration::from_secs(20));
@@ -423,7 +427,7 @@ fn builtin_part(rep: &mut Report, viol: &mut Viol, drv: &mut Driver, seed: u64, 
         }
         rep.hist("builtin-arg-class", format!("{} {}", c.name, c.class));
         match &e {
-            Ended::Exit(0, out) if pred[*i].as_deref() != Some("panic") => {
+            Ended::Exit(0, out) if !kill(&pred[*i]) => {
                 let r = out.trim().strip_prefix("RESULT ").unwrap_or(out.trim()).to_string();
                 rep.hist("builtin-outcome", canon_kind(&r));
                 rep.class(format!("builtin|{}|{}|{}", c.name, c.class, canon_kind(&r)));
@@ -440,8 +444,8 @@ fn builtin_part(rep: &mut Report, viol: &mut Viol, drv: &mut Driver, seed: u64, 
             Ended::Exit(0, out) => {
                 rep.class(format!("builtin|{}|{}|returned", c.name, c.class));
                 rep.mismatch(
-                    "Model/Builtins predicts a panic, the real built-in returned",
-                    json!({"case": case_json(c), "lean": "panic", "real": out.trim()}),
+                    "Model/Builtins predicts a panic / a call through a null vtable slot, the real built-in returned",
+                    json!({"case": case_json(c), "lean": pred[*i], "real": out.trim()}),
                 );
             }
             other => {
@@ -459,38 +463,66 @@ fn builtin_part(rep: &mut Report, viol: &mut Viol, drv: &mut Driver, seed: u64, 
             }
         }
     }
-    // --- the rest: crash-isolated batches
-    let list = workdir.join(format!("c10-builtin-{}.txt", std::process::id()));
-    let mut text = String::new();
-    for i in &batched {
-        text.push_str(&format!("{} {}\n", i, pred[*i].as_deref().unwrap_or("-")));
+    // --- the rest: crash-isolated batches.  Group 0: everything but the element-type cases
+    // (batches of 1500, a script that has killed three workers is not run again).  Then one group
+    // per element type (`List[<type>].<op>` scripts): one batch, short timeout; after four kills the
+    // rest of that type is skipped — the (built-in, element type) keys found so far are the replays,
+    // and a broken vtable must cost minutes, not a restart per case.
+    let is_elem = |i: usize| cases[i].class.starts_with("elem=");
+    let mut groups: Vec<(String, Vec<usize>)> = vec![("".into(), batched.iter().copied().filter(|i| !is_elem(*i)).collect())];
+    for i in batched.iter().copied().filter(|i| is_elem(*i)) {
+        let ty = cases[i].id.split("].").next().unwrap_or("").to_string() + "].";
+        match groups.last_mut() {
+            Some((g, v)) if *g == ty => v.push(i),
+            _ => groups.push((ty, vec![i])),
+        }
     }
-    std::fs::write(&list, text).expect("write builtin list");
-    let lp = list.to_string_lossy().to_string();
     let (seed_s, tier) = (seed.to_string(), if thorough { "thorough" } else { "quick" });
-    let mut crashes = vec![];
-    // a script that has killed three workers is not run again in this pass:
-    // its id goes to the skip file the batch workers read on start
-    let skip = format!("{lp}.skip");
-    let _ = std::fs::write(&skip, "");
-    let mut per_id: HashMap<String, u32> = HashMap::new();
-    run_batches(&["builtin-batch", &seed_s, tier, &lp], batched.len() as u64, 1500, Duration::from_secs(300), rep,
-        |_rep: &mut Report, idx: u64, how: &Ended| {
-            crashes.push((idx as usize, how.clone()));
-            let id = cases[batched[idx as usize]].id.clone();
-            let n = per_id.entry(id.clone()).or_insert(0);
-            *n += 1;
-            if *n == 3 {
-                use std::io::Write;
-                if let Ok(mut f) = std::fs::OpenOptions::new().append(true).open(&skip) {
-                    let _ = writeln!(f, "{id}");
+    let mut crashes: Vec<(usize, Ended)> = vec![];
+    for (gk, (gname, members)) in groups.iter().enumerate() {
+        if members.is_empty() {
+            continue;
+        }
+        let list = workdir.join(format!("c10-builtin-{}-{gk}.txt", std::process::id()));
+        let mut text = String::new();
+        for i in members {
+            text.push_str(&format!("{} {}\n", i, pred[*i].as_deref().unwrap_or("-")));
+        }
+        std::fs::write(&list, text).expect("write builtin list");
+        let lp = list.to_string_lossy().to_string();
+        // ids (or `prefix*`) the batch workers read on start and do not run
+        let skip = format!("{lp}.skip");
+        let _ = std::fs::write(&skip, "");
+        let mut per_id: HashMap<String, u32> = HashMap::new();
+        let mut kills_in_group = 0u32;
+        let (batch, timeout) = if gname.is_empty() { (1500, Duration::from_secs(300)) } else { (members.len() as u64, Duration::from_secs(60)) };
+        run_batches(&["builtin-batch", &seed_s, tier, &lp], members.len() as u64, batch, timeout, rep,
+            |rep: &mut Report, idx: u64, how: &Ended| {
+                crashes.push((members[idx as usize], how.clone()));
+                let id = cases[members[idx as usize]].id.clone();
+                let n = per_id.entry(id.clone()).or_insert(0);
+                *n += 1;
+                kills_in_group += 1;
+                let entry = if !gname.is_empty() && kills_in_group == 4 {
+                    rep.hist("builtin-not-run(element type killed four workers already)", gname.clone());
+                    Some(format!("{gname}*"))
+                } else if *n == 3 || (!gname.is_empty() && matches!(how, Ended::Timeout)) {
+                    Some(id)
+                } else {
+                    None
+                };
+                if let Some(e) = entry {
+                    use std::io::Write;
+                    if let Ok(mut f) = std::fs::OpenOptions::new().append(true).open(&skip) {
+                        let _ = writeln!(f, "{e}");
+                    }
                 }
-            }
-        });
-    let _ = std::fs::remove_file(&list);
-    let _ = std::fs::remove_file(&skip);
-    for (k, how) in crashes {
-        let c = &cases[batched[k]];
+            });
+        let _ = std::fs::remove_file(&list);
+        let _ = std::fs::remove_file(&skip);
+    }
+    for (ci, how) in crashes {
+        let c = &cases[ci];
         let how = ended_str(&how);
         rep.evaluations += 1;
         rep.hist("builtin", c.name);
@@ -498,7 +530,7 @@ fn builtin_part(rep: &mut Report, viol: &mut Viol, drv: &mut Driver, seed: u64, 
         rep.class(format!("builtin|{}|{}|{how}", c.name, c.class));
         let mut input = case_json(c);
         input["ended"] = json!(how);
-        if let Some(p) = &pred[batched[k]] {
+        if let Some(p) = &pred[ci] {
             rep.mismatch("Model/Builtins predicts a result, the real built-in killed the process", json!({"case": input, "lean": p}));
         }
         viol.add(
@@ -514,23 +546,30 @@ fn builtin_batch_worker(rep: &mut Report, seed: u64, thorough: bool, list: &str,
     let cases = builtins::cases(seed, thorough);
     let text = std::fs::read_to_string(list).expect("builtin list");
     let lines: Vec<&str> = text.lines().collect();
-    let mut cache: HashMap<String, Result<builtins::Caller, String>> = HashMap::new();
+    // one compiled package per script, one caller per (script, entry function)
+    let mut pkgs: HashMap<String, Result<roto::Package<roto::NoCtx>, String>> = HashMap::new();
+    let mut cache: HashMap<(String, &'static str), Result<builtins::Caller, String>> = HashMap::new();
     let skip: BTreeSet<String> = std::fs::read_to_string(format!("{list}.skip")).unwrap_or_default().lines().map(|l| l.to_string()).collect();
     for k in from..(from + n).min(lines.len()) {
         let (i, expected) = lines[k].split_once(' ').unwrap();
         let c = &cases[i.parse::<usize>().unwrap()];
-        if skip.contains(&c.id) {
+        if skip.contains(&c.id) || skip.iter().any(|p| p.ends_with('*') && c.id.starts_with(p.trim_end_matches('*'))) {
             rep.hist("builtin-not-run(script killed three workers already)", c.id.clone());
             continue;
         }
-        if !cache.contains_key(&c.src) {
-            let f = compile(&c.src).and_then(|mut p| make_caller(&mut p, c.sig));
+        let ck = (c.src.clone(), c.entry);
+        if !cache.contains_key(&ck) {
+            let pkg = pkgs.entry(c.src.clone()).or_insert_with(|| compile(&c.src));
+            let f = match pkg {
+                Ok(p) => make_caller_at(p, c.sig, c.entry),
+                Err(e) => Err(e.clone()),
+            };
             if let Err(e) = &f {
                 rep.mismatch("generated script does not compile", json!({"case": case_json(c), "error": e}));
             }
-            cache.insert(c.src.clone(), f);
+            cache.insert(ck.clone(), f);
         }
-        let Ok(f) = &cache[&c.src] else { continue };
+        let Ok(f) = &cache[&ck] else { continue };
         println!("START {k}");
         let r = f(&c.args);
         rep.evaluations += 1;
@@ -626,7 +665,7 @@ fn run_one(case: &J) -> Result<String, String> {
             let args: Vec<Arg> = case["args"].as_array().ok_or("args")?.iter()
                 .map(|a| Arg::decode(a.as_str().unwrap_or(""))).collect::<Result<_, _>>()?;
             let mut pkg = compile(src)?;
-            let f = make_caller(&mut pkg, sig)?;
+            let f = make_caller_at(&mut pkg, sig, case["entry"].as_str().unwrap_or("main"))?;
             Ok(f(&args))
         }
         Some("conc") => conc::run(case),
